@@ -529,7 +529,32 @@ fn run_strategy<S: CasForms<Arc<Obj>> + CasForms<Option<Arc<Obj>>> + Default + S
     }
 }
 
+// Every other weak compare-exchange of the crate fails spuriously (the shim honours the request only
+// for `compare_exchange_weak`): code that uses the weak form must retry, so the results - returned
+// identities, verdicts, counts - must not change; a weak exchange without a retry loop shows up as a
+// compare_and_swap that reports success without having stored.
+#[cfg(arc_swap_verif)]
+static WEAK_CALLS: std::sync::atomic::AtomicUsize = std::sync::atomic::AtomicUsize::new(0);
+#[cfg(arc_swap_verif)]
+fn hook_pre(a: &arc_swap::verif::Access) -> arc_swap::verif::Decision {
+    if matches!(a.op, arc_swap::verif::Op::CasWeak) {
+        let n = WEAK_CALLS.fetch_add(1, std::sync::atomic::Ordering::Relaxed);
+        if n % 2 == 0 {
+            return arc_swap::verif::Decision::SpuriousFail;
+        }
+    }
+    arc_swap::verif::Decision::Proceed
+}
+#[cfg(arc_swap_verif)]
+fn hook_post(_: &arc_swap::verif::Access, _: usize, _: bool) {}
+#[cfg(arc_swap_verif)]
+static HOOKS: arc_swap::verif::Hooks = arc_swap::verif::Hooks { pre: hook_pre, post: hook_post };
+
 fn main() {
+    // the second build of this harness (--cfg arc_swap_verif) injects the spurious failures; the first
+    // one runs the crate exactly as users build it
+    #[cfg(arc_swap_verif)]
+    arc_swap::verif::install(&HOOKS);
     let args: Vec<String> = std::env::args().collect();
     let text = std::fs::read_to_string(&args[1]).expect("programs file");
     let first: usize = args.get(2).map(|s| s.parse().unwrap()).unwrap_or(0);
